@@ -108,7 +108,15 @@ def gen_case(ctx, g, focus=None):
             # any order, duplicates allowed, an index one past the widest record (then nothing is removed from shorter records);
             # with DISTINCT / DISTINCT COUNT / TOP on top (the count is prepended to the record the writer kept)
             qa['kind'] = ('except', [r.randint(0, na) for _ in range(r.randint(1, 3))])
-            if r.random() < 0.25:
+            if r.random() < 0.3:
+                # the same column mentioned twice AND a column to its right removed as well (a single-cursor merge over the
+                # sorted index list gets stuck on the second copy)
+                A = [row + [r.choice(CELLS[:5]) for _ in range(4 - len(row))] for row in A]
+                d = r.randint(0, 2)
+                xs = [d, d] + r.sample(range(d + 1, 4), r.randint(1, 3 - d))
+                r.shuffle(xs)
+                qa['kind'] = ('except', xs)
+            elif r.random() < 0.25:
                 # a wide table and column numbers of two digits next to small ones (10 sorts before 2 as TEXT, after it as a number)
                 A = [row + [r.choice(CELLS[:5]) for _ in range(12 - len(row))] for row in A]
                 qa['kind'] = ('except', r.sample([0, 1, 2, 3], r.randint(1, 2)) + r.sample([9, 10, 11], r.randint(1, 2)))
